@@ -419,26 +419,28 @@ Definition v6_finish (ps : list N) (pp : N) (cp : option N) : xr (list N) :=
   | None => if pp =? 8 then XOk ps else XErr InvalidIpv6Address
   end.
 
+(* what follows the main loop: the embedded-IPv4 part (if any), the final checks, the swaps *)
+Definition v6_tail (ex : v6_exit) : xr (list N) :=
+  match ex with
+  | V6End ps pp cp => v6_finish ps pp cp
+  | V6Ipv4 rest ps pp cp =>
+      if 6 <? pp then XErr InvalidIpv6Address
+      else
+        xr_bind (v6_v4 (length rest) rest ps pp 0) (fun '(ps', pp', seen) =>
+          if negb (seen =? 4) then XErr InvalidIpv6Address
+          else v6_finish ps' pp' cp)
+  end.
+
+Definition v6_zero : list N := [0; 0; 0; 0; 0; 0; 0; 0].
+
 Definition parse_ipv6addr (input : list N) : xr (list N) :=
-  let pieces := [0; 0; 0; 0; 0; 0; 0; 0] in
   match input with
   | [] | [_] => XErr InvalidIpv6Address                      (* len < 2 *)
   | c0 :: c1 :: r2 =>
-      let start :=
-        if c0 =? 58 then
-          if c1 =? 58 then XOk (r2, 1, Some 1) else XErr InvalidIpv6Address
-        else XOk (input, 0, None) in
-      xr_bind start (fun '(inp, pp, cp) =>
-      xr_bind (v6_main (length inp) inp pieces pp cp) (fun ex =>
-        match ex with
-        | V6End ps pp cp => v6_finish ps pp cp
-        | V6Ipv4 rest ps pp cp =>
-            if 6 <? pp then XErr InvalidIpv6Address
-            else
-              xr_bind (v6_v4 (length rest) rest ps pp 0) (fun '(ps', pp', seen) =>
-                if negb (seen =? 4) then XErr InvalidIpv6Address
-                else v6_finish ps' pp' cp)
-        end))
+      if c0 =? 58 then
+        if c1 =? 58 then xr_bind (v6_main (length r2) r2 v6_zero 1 (Some 1)) v6_tail
+        else XErr InvalidIpv6Address
+      else xr_bind (v6_main (length input) input v6_zero 0 None) v6_tail
   end.
 
 (* ------------------------------------------------------------------ Host::parse, Host::parse_opaque *)
